@@ -456,7 +456,7 @@ class CallMixin:
 
     def apply_contract(self, c: Contract, qual, bound: dict, p: Path, R, node):
         line = node.lineno
-        short = ".".join(qual.split(".")[2:])
+        short = ".".join(qual.split(".")[2:]) or qual
         # the callee's declared parameter types must admit the actual tags
         for name, alts in c.params.items():
             if name in bound and not self.tag_ok(bound[name], alts):
@@ -467,8 +467,22 @@ class CallMixin:
         h0 = p.heap
         Tn = self.normal_tree(bound, p)
         x0 = Ctx(self, h0, h0, a, family=self.family, T=Tn)
+        hint = self.contract.call_hints.get(short.split(".")[-1]) if isinstance(self.contract.call_hints, dict) else None
+        if hint is not None:
+            # ghost assert before the call: proved here, then available to the callee's contract
+            xh = Ctx(self, self.h_entry, h0, self.args_entry, v=None, family=self.family, T=getattr(self, "T_entry", None))
+            xh.call_args = a
+            xh.p = p
+            f = hint(xh)
+            self.oblige(p, f"L{line}/call {short}/ghost-assert", f, kind="inv")
+            p.assume(f)
         for rname, rfn in c.requires_:
             self.oblige(p, f"L{line}/call {short}/requires {rname}", rfn(x0), kind="pre")
+        if qual == self.qual and getattr(c, "decreases_", None) is not None:
+            # recursion: the termination measure strictly decreases and is bounded below
+            xe = Ctx(self, self.h_entry, self.h_entry, self.args_entry, family=self.family, T=getattr(self, "T_entry", None))
+            m_call, m_entry = c.decreases_(x0), c.decreases_(xe)
+            self.oblige(p, f"L{line}/call {short}/decreases", And(m_call < m_entry, m_call >= 0), kind="pre")
         if c.reads_structure:
             self.on_structure_read(p, f"L{line}/call {short}", bound)
         outs = []
